@@ -363,7 +363,9 @@ def check_e2e(ctx, case):
                     if want != rm.canon(rm.default_value(p['T'])) and rm.depth(p['T']) >= 1:
                         ctx.nt(('e2e', specs.tojson(p['T']), specs.tojson(v)))
                     before = len(rec['calls'])
-                    how = 'string' if n == 2 else 'value'
+                    # the text form of float leaves is rounded (fmtstr): it may even fall outside the limits, so the
+                    # string path is exercised for types without double/scaled leaves only
+                    how = 'string' if n == 2 and not (rm.kinds(p['T']) & {'double', 'scaled'}) else 'value'
                     try:
                         if how == 'value':
                             item = client.setParameter(mname, p['name'], dt.validate(v))
